@@ -650,7 +650,7 @@ impl<'a> Sim<'a> {
                 _ => String::new(),
             };
             let confusion = self.confusion_shape(j);
-            let sig = if confusion && real_class == "fail" && model_class == "all" {
+            let sig = if confusion && real_class == "fail" && (model_class == "all" || model_class == "signatures") {
                 if self.known.is_known("C03", SIGNERS_SIG).is_some() {
                     self.out.known_hits.push(format!("C03:{SIGNERS_SIG}"));
                     return;
